@@ -335,13 +335,16 @@ func runC08(e *Engine, g G, o RunOpt) RunInfo {
 			e.Violate("C08", "duplicated-on-wire:"+c.op.API, "%s %s appears %d times on the wire", c.op.API, c.op.ID, n)
 		}
 	}
-	// traffic log holds the same payloads
+	// (what the traffic log contains is not part of the property: only observed)
 	if logw != nil && sc.Client.Logger == 1 && !socketFailed {
+		missing := 0
 		for _, c := range calls {
 			if c != nil && c.done && c.err == nil && !bytes.Contains(logw.Data, c.payload) {
-				e.Violate("C08", "missing-from-traffic-log", "%s %s is on the wire but not in the traffic log", c.op.API, c.op.ID)
-				break
+				missing++
 			}
+		}
+		if missing > 0 {
+			e.Probe("c08.payload_missing_from_traffic_log")
 		}
 		e.Probe("c08.logger_checked")
 	}
